@@ -105,6 +105,47 @@ def ogg_multiplex(a, b):
     return b"".join(out)
 
 
+def _atom(name, payload):
+    return struct.pack(">I4s", len(payload) + 8, name) + payload
+
+
+def mp4_opaque_items(d):
+    """append ilst items mutagen cannot interpret (two sharing one name, a malformed trkn, an unknown binary
+    atom) by growing ilst into the free atom that follows it: no other size or offset changes"""
+    atoms = W.mp4_atoms(d)
+    ilst = free = None
+    for a in W.mp4_flat(atoms):
+        if a["path"] == (b"moov", b"udta", b"meta", b"ilst"):
+            ilst = a
+        elif ilst is not None and free is None and a["name"] == b"free" and a["off"] == ilst["off"] + ilst["size"]:
+            free = a
+    if ilst is None or free is None:
+        return None
+    dat = lambda fl, pl: _atom(b"data", struct.pack(">II", fl, 0) + pl)
+    extra = (_atom(b"foob", dat(0, b"binary-one")) + _atom(b"foob", dat(0, b"binary-two")) +
+             _atom(b"aART", _atom(b"datA", struct.pack(">II", 1, 0) + b"wheeee")) + _atom(b"trkn", _atom(b"datA", b"\x00" * 16)) + _atom(b"quux", dat(0, b"\x01\x02\x03")) + _atom(b"quux", dat(0, b"\x04")))
+    if free["size"] - len(extra) < 8:
+        return None
+    e = ilst["off"] + ilst["size"]
+    nd = d[:ilst["off"]] + struct.pack(">I", ilst["size"] + len(extra)) + d[ilst["off"] + 4:e] + extra
+    nd += struct.pack(">I", free["size"] - len(extra)) + b"free" + d[free["off"] + 8 + len(extra):]
+    assert len(nd) == len(d)
+    return nd
+
+
+def id3_unknown_frames(d):
+    """a v2.4 tag with unknown frames (two sharing one id) in front of the audio of an ID3-prefixed file"""
+    body = d
+    if d[:3] == b"ID3":
+        t = W.id3v2_walk(d)
+        body = d[t["size"]:]
+    fr = lambda fid, pl: fid + bytes([0, 0, 0, len(pl)]) + b"\x00\x00" + pl
+    frames = fr(b"TIT2", b"\x03SynthTitle") + fr(b"XYZQ", b"opaque-one") + fr(b"XYZQ", b"opaque-two") + fr(b"ZZZ9", b"\x01\x02")
+    n = len(frames) + 40
+    tag = b"ID3\x04\x00\x00" + bytes([(n >> 21) & 0x7F, (n >> 14) & 0x7F, (n >> 7) & 0x7F, n & 0x7F]) + frames + b"\x00" * 40
+    return tag + body
+
+
 def extra_samples(kind, base):
     """base: list of (name, bytes) real samples of the kind -> list of synthetic (name, bytes)"""
     out = []
@@ -126,6 +167,19 @@ def extra_samples(kind, base):
             items = [(b"Title", b"Synth"), (b"Artist", b"Someone")]
             out.append(("synth-ape-headerless+" + name0, body + ape_tag(items, header=False, version=1000)))
             out.append(("synth-ape+id3v1+" + name0, body + ape_tag(items) + id3v1()))
+        elif kind.family == "mp4":
+            for nm, dd in base:
+                x = mp4_opaque_items(dd)
+                if x:
+                    out.append(("synth-opaque-items+" + nm, x))
+                    break
+        elif kind.name in ("MP3", "ID3"):
+            out.append(("synth-unknown-frames+" + name0, id3_unknown_frames(d0)))
+            # a blank ID3v1 trailer (what ID3.save(v1=2) writes when no frame has an ID3v1 equivalent)
+            x = id3_unknown_frames(d0)
+            if W.id3v1_at_end(x):
+                x = x[:-128]
+            out.append(("synth-blank-id3v1+" + name0, x + b"TAG" + b"\x00" * 124 + b"\xff"))
         elif kind.name == "OggVorbis":
             import os
             from .kinds import DATA
